@@ -43,6 +43,15 @@ impl Draw<'_> {
     }
 }
 
+/// Half of the runs vary the order in which runnable threads proceed (listener vs workers) by tiny
+/// delays at scheduling points; magnitudes stay far below every timeout and timing tolerance.
+pub fn light_sched(d: &Draw, fc: &mut FaultCfg) {
+    if d.chance("swarm.sched_variety", 1, 2) {
+        fc.sched_w = [8, 1, 1, 1, 1];
+        fc.sched_table = [0, crate::world::US, 2 * crate::world::US, 5 * crate::world::US, 10 * crate::world::US];
+    }
+}
+
 pub const BLKSIZES: [usize; 11] = [512, 8, 9, 16, 511, 513, 1024, 1428, 8192, 65463, 65464];
 pub const WINDOWS: [u64; 10] = [1, 2, 3, 4, 7, 8, 16, 64, 65534, 65535];
 pub const TIMEOUTS: [u64; 4] = [5, 1, 2, 255];
@@ -511,8 +520,11 @@ pub fn xfer(prop: &'static str, tier: Tier, w: &Arc<World>) -> Scn {
         _ => {}
     }
 
-    if xc_no_resend {
-        fc.spare_requests = true;
+    // a duplicated request starts a second worker for the same client (and, for uploads, the same
+    // path: known finding D6, C13's subject): request datagrams are exempt from network faults here
+    fc.spare_requests = true;
+    if !wrap_class && !full_window && len < 300_000 {
+        light_sched(&d, &mut fc);
     }
     let desc = format!(
         "{:?} {} len={} blocks={} opts={:?} dup={} peer[timeout={}ms per_block={} gap_ack={} eager={} dally={} script={:?}] faults[budget={} fates={:?} recv_err={} stall={}]",
